@@ -293,11 +293,18 @@ class C04(Check):
             return f"impl {impl.get('err', impl.get('ok'))} vs model {model.get('err', model.get('ok'))}"
         alts = [model, model.get("alt", model)]
         if "err" in impl:
-            return None if any(a.get("err") == impl["err"] for a in alts) else f"impl {impl['err']} vs model {[a.get('err', 'ok') for a in alts]}"
+            if any(a.get("err") == impl["err"] for a in alts):
+                return None
+            if any(a.get("err") == impl["err"] for a in model.get("near", [])):
+                return "TIE: float near-tie (reproduced when every LP optimum is nudged by 1e-10)"
+            return f"impl {impl['err']} vs model {[a.get('err', 'ok') for a in alts]}"
         w = G.w_tl(impl["ok"], vm)
         for a in alts:
             if "ok" in a and C.tls_close(w, a["ok"]) and [int(x) for x in a["tactics"]] == impl["tactics"]:
                 return None
+        for a in model.get("near", []):
+            if "ok" in a and C.tls_close(w, a["ok"]) and [int(x) for x in a["tactics"]] == impl["tactics"]:
+                return "TIE: float near-tie (reproduced when every LP optimum is nudged by 1e-10)"
         if json.dumps(alts[0].get("ok"), sort_keys=True) != json.dumps(alts[1].get("ok"), sort_keys=True):
             return "TIE: exact ties in simplification resolved in a mixed way"
         a = alts[0]
